@@ -75,26 +75,29 @@ static volatile int g_nreps = 0;       // reports stored
 static volatile int g_total = 0;       // reports seen
 static volatile int g_rep_lock = 0;
 
-extern "C" void __tsan_on_report(void* report) {
-    // runs inside the runtime: no allocation, no symbolisation here — copy the raw report
-    while (__sync_lock_test_and_set(&g_rep_lock, 1)) {}
-    g_total++;
+// Runs inside the TSan runtime (report mutex held): must not be instrumented itself (a "race" seen in here would re-enter the
+// reporter and dead-lock), must not allocate, symbolise or call intercepted libc functions — it only copies the raw report.
+extern "C" __attribute__((no_sanitize("thread"))) void __tsan_on_report(void* report) {
+    while (__atomic_exchange_n(&g_rep_lock, 1, __ATOMIC_ACQUIRE)) {}
+    g_total = g_total + 1;
     if (g_nreps < 64) {
         Rep& r = g_reps[g_nreps];
-        memset(&r, 0, sizeof r);
         const char* d = 0;
         int count = 0, sc = 0, mc_ = 0, lc = 0, mu = 0, tc = 0, ut = 0;
         void* sleep_trace[1];
         __tsan_get_report_data(report, &d, &count, &sc, &mc_, &lc, &mu, &tc, &ut, sleep_trace, 1);
-        if (d) strncpy(r.desc, d, sizeof r.desc - 1);
+        size_t i = 0;
+        for (; d && d[i] && i + 1 < sizeof r.desc; ++i) r.desc[i] = d[i];
+        r.desc[i] = 0;
         r.nmop = mc_ > 2 ? 2 : mc_;
-        for (int i = 0; i < r.nmop; ++i) {
+        for (int m = 0; m < r.nmop; ++m) {
             int atomic = 0;
-            __tsan_get_report_mop(report, (unsigned long)i, &r.mop[i].tid, &r.mop[i].addr, &r.mop[i].size, &r.mop[i].write, &atomic, r.mop[i].trace, 12);
+            for (int q = 0; q < 12; ++q) r.mop[m].trace[q] = 0;
+            __tsan_get_report_mop(report, (unsigned long)m, &r.mop[m].tid, &r.mop[m].addr, &r.mop[m].size, &r.mop[m].write, &atomic, r.mop[m].trace, 12);
         }
-        g_nreps++;
+        g_nreps = g_nreps + 1;
     }
-    __sync_lock_release(&g_rep_lock);
+    __atomic_store_n(&g_rep_lock, 0, __ATOMIC_RELEASE);
 }
 
 static std::string clean(std::string s) {       // drop template and argument lists
